@@ -5,14 +5,20 @@ SPEC = {
     "tests": [
         # sleep-bound: 48 cases per process run concurrently (vf.Batch); thorough = 480 per process
         {"name": "TestTiming", "quick": 48, "thorough": 480, "shards_quick": 2, "shards_thorough": 6, "timeout": 3000},
+        # dense profiles: CPU-bound for a fraction of a second each, 6 at a time per process
+        {"name": "TestNoEarlyShotDense", "quick": 24, "thorough": 240, "shards_quick": 2, "shards_thorough": 4, "timeout": 3000},
     ],
     "rule": ("generated profiles (once/const/line, optionally two chained; 1-12 tokens per part over 1-4 s), 1-4 instances, shared or "
              "per-instance, discard_overflow on/off, cyclic response-time histories drawn from {0, 50ms, 0.5s, 1.7s, 1.9s, 2.1s, 2.4s, 3s, "
              "3.5s} so that lateness lands on both sides of the 2 s threshold; real engine, real time, recording doubles, 48 cases "
              "concurrently per process. For every token: T scheduled time, A instant Next returned it, B instant of Shoot entry / discard "
-             "report (joined by goroutine id). Non-trivial = at least one token handed out >= 1 s late; distinct = hash of the case."),
+             "report (joined by goroutine id). Non-trivial = at least one token handed out >= 1 s late; distinct = hash of the case. "
+             "TestNoEarlyShotDense: const / line profiles of 700-6000 tokens per second for 60-250 ms, 1-3 instances, responses of 0-900 us, "
+             "so that instances keep arriving at their next token a fraction of a millisecond early; same per-token comparison (B >= T "
+             "exactly); non-trivial = at least 10 shots entered within 1 ms after their token's time."),
     "floors": {"TestTiming/late_1_2s": 0.1, "TestTiming/late_2_3s": 0.1, "TestTiming/late_ge_3s": 0.1,
-               "TestTiming/discard_off": 0.1, "TestTiming/instances_gt_1": 0.3, "TestTiming/discards_seen": 0.2},
+               "TestTiming/discard_off": 0.1, "TestTiming/instances_gt_1": 0.3, "TestTiming/discards_seen": 0.2,
+               "TestNoEarlyShotDense/shots_within_1ms_after_their_time": 0.4},
     "manifest": {
         "technique": "property-based testing (rapid generators, batch-parallel, real time) with an interval oracle over measured instants",
         "text": ("Real-time runs of the engine against slow fake guns. No shot may enter before its token's time; with discard_overflow on a "
